@@ -76,7 +76,7 @@ CORE_TB = [KERNEL, DRIVER, HARNESS, "Model/Core.lean hand-written (atomic handle
 PROPS["C01"] = {
     "module": "CqlVerif.Props.C01",
     "gens": ["policy"],
-    "streams": [CORE_STREAM, STORM_STREAM, RETRY_STREAM, SCHED_STREAM],
+    "streams": [CORE_STREAM, STORM_STREAM, RETRY_STREAM, SCHED_STREAM, {"name": "ks", "quick": 400, "thorough": 10000}],
     "shrink": False,
     "claim": "Lean theorems replies_le_one and reply_on_own_stream over Model/Core for every interleaving of handler steps, any number of clients/requests/hosts/connections/streams and every fault sequence (induction over arbitrary action lists); single-request liveness answered_when_attempts_answered; tied to the code by the core (differential) and storm (oracle) e2e streams",
     "note": "safety half proved outright; 'never none' is proved for the single-request life-cycle (Model/Retry) and otherwise checked by the ExactlyOne oracle on e2e storms; intra-handler interleavings rest on lock facts, not on a mechanised reduction theorem",
